@@ -176,6 +176,24 @@ def main():
         if b is not None and re.search(r"self\s*\.\s*next_seq\s*\.\s*(try_)?lock\(\)", b):
             takers.add(m.group(1))
     extra = sorted(takers - set(LOCKED) - {"create_continuity", "branch", "handoff", "verif_seq_free"})
+    # A function that HOLDS the seq mutex without being a writer (ContinuityStore::replay_events since the S3-live repair:
+    # the log read + sidecar rebuild of a reader whose try_replay was refused run under the writers' mutex) is a stutter
+    # step of the store model as long as it reads only: the guard is bound to an `_name` that is never used, and neither
+    # the function nor what it calls in this file touches the counters, appends to the log or the sidecar, or broadcasts.
+    WRITES = (r"next_seq\s*\.\s*(insert|get|get_mut|remove|entry|contains_key)\s*\(|\.\s*append\s*\(|"
+              r"sender\s*\.\s*send\s*\(|append_best_effort\s*\(|save_index\s*\(")
+
+    def reads_only(name, depth=0):
+        b = fn_body(src, name)
+        if b is None or depth > 3 or re.search(WRITES, b):
+            return False
+        return all(reads_only(c, depth + 1) for c in set(re.findall(r"self\s*\.\s*(\w+)\s*\(", b)) if fn_body(src, c) is not None)
+
+    holders = [n for n in extra
+               if len(re.findall(r"next_seq\s*\.\s*(?:try_)?lock\(\)", fn_body(src, n))) == 1
+               and re.search(r"let\s+_\w+\s*=\s*self\s*\.\s*next_seq\s*\.\s*lock\(\)", fn_body(src, n))
+               and reads_only(n)]
+    extra = [n for n in extra if n not in holders]
 
     # ---- TaskEmitter::emit (crates/ripd/src/tasks/mod.rs): extent of the seq guard
     tpath = os.path.join(a.repo, "crates", "ripd", "src", "tasks", "mod.rs")
@@ -382,6 +400,7 @@ def main():
     out.append(f"Definition gen_branch : list mstep := {lst(branch)}.")
     out.append(f"Definition gen_handoff : list mstep := {lst(handoff)}.")
     out.append(f"Definition gen_other_seq_mutex_users : nat := {len(extra)}%nat.  (* {' '.join(extra)} *)")
+    out.append(f"(* read-only holders of the seq mutex (guard never used; no counter access, log / sidecar append or broadcast in the function or its callees in continuities.rs): {' '.join(holders) or 'none'} *)")
     out.append(f"Definition gen_task_emit : list mstep := {lst(task_steps)}.")
     out.append("""
 Definition mcode (m : mstep) : N :=
@@ -447,7 +466,7 @@ Proof. vm_compute. reflexivity. Qed.""")
     print("handoff           :", " ".join(handoff))
     print("spawn_session guard:", sess_guard, sess_guard_why)
     print("run counter emit sites (line, increments):", emit_sites, emit_notes)
-    print("other functions taking the seq mutex:", extra)
+    print("other functions taking the seq mutex:", extra, "read-only holders:", holders)
     print("pipe: counted list vs emitted list:", pipe_cuts)
     print("TaskEmitter::emit :", " ".join(task_steps))
     return 0
